@@ -276,12 +276,16 @@ def LRes.view : LRes → Option (Bool × Nat × Nat × Bool)
 
 /-- `GetPackedResponseWithApproximateTTL`: the TTL inside the bytes returned (or `none` for `nil`)
 and the entry after a possible re-pack.  The re-pack fails iff the authority record cannot be packed
-(`ns = 2`); the timestamp is then put back and the bytes stay as they were. -/
+(`ns = 2`); the timestamp is then put back and the bytes stay as they were.  When no re-pack happens
+(another goroutine holds it, or it failed) the bytes at hand are returned only if their TTL does not
+exceed the current one by more than the slack; otherwise `nil`, and the caller answers with the
+exact TTL. -/
 def packedApprox (e : Entry) (now : Int) : Option Nat × Entry :=
   if e.deadlineNano ≤ now then (none, e)
   else if e.packed ∧ withinSlack e.packedTTL (curTtl e now) then (some e.packedTTL, e)
   else if now - e.packedAt > SEC ∧ e.ns ≠ 2 then (some (curTtl e now), repack e now)
-  else (if e.packed then some e.packedTTL else none, e)
+  else (if e.packed ∧ ¬ (e.packedTTL > curTtl e now ∧ e.packedTTL - curTtl e now > SLACK) then some e.packedTTL
+        else none, e)
 
 /-- `GetStaleResponse` -/
 def staleResp (e : Entry) (now : Int) (staleTtl : Int) : Option Nat :=
